@@ -49,14 +49,25 @@ Proof.
   intro H. destruct sharing_witness as [N E]. exact (N (H ps0 _ _ (E ps0))).
 Qed.
 
-(* ---- names of the caller's variables enter the description of arithmetic priors ---- *)
+(* ---- names of the caller's variables enter the description of arithmetic priors ----
+   (as long as CompoundPrior declares no identifier fields: `compound_idf` is read from the source) *)
 Lemma names_refuted :
+  compound_idf = None ->
   ~ (forall ps mid c ln rn ln' rn' l r,
        tokens ps (reify (NBinop mid c ln rn l r)) = tokens ps (reify (NBinop mid c ln' rn' l r))).
 Proof.
-  intro H. specialize (H ps0 0%Z "SumPrior" "xx" "yy" "aa" "yy" (u01 1) (g12 2)).
-  vm_compute in H. discriminate H.
+  intro Hc.
+  first [ unfold compound_idf in Hc; discriminate Hc
+        | intro H; specialize (H ps0 0%Z "SumPrior" "xx" "yy" "aa" "yy" (u01 1) (g12 2));
+          vm_compute in H; discriminate H ].
 Qed.
+
+(* ... and do not once it does *)
+Lemma names_irrelevant (fs : list string) :
+  compound_idf = Some fs ->
+  forall ps mid c ln rn ln' rn' l r,
+    tokens ps (reify (NBinop mid c ln rn l r)) = tokens ps (reify (NBinop mid c ln' rn' l r)).
+Proof. intros Hc ps mid c ln rn ln' rn' l r. cbn [reify]. rewrite Hc. reflexivity. Qed.
 
 (* ---- reload: compositions whose identifier changes, or cannot be computed, after reading back ---- *)
 Definition arith_model : node := A2 7 (NBinop 8 "SumPrior" "xx" "other" (u01 1) (NFloat 1)) (g12 2).
@@ -69,24 +80,41 @@ Definition drawer : node := NSearch "Drawer" ["total_draws"] [("total_draws", NI
 Definition changes_on_reload (t : node) : Prop :=
   exists t', reload t = Some t' /\ forall ps, tokens ps (reify t') <> tokens ps (reify t).
 
-Lemma reload_changes_arith : changes_on_reload arith_model.
-Proof. eexists. split; [vm_compute; reflexivity|]. intros ps H. vm_compute in H. discriminate H. Qed.
+Lemma reload_changes_arith : compound_idf = None -> changes_on_reload arith_model.
+Proof.
+  intro Hc.
+  first [ unfold compound_idf in Hc; discriminate Hc
+        | eexists; split; [vm_compute; reflexivity | intros ps H; vm_compute in H; discriminate H] ].
+Qed.
 
-Lemma reload_changes_item_number : changes_on_reload list_coll.
-Proof. eexists. split; [vm_compute; reflexivity|]. intros ps H. vm_compute in H. discriminate H. Qed.
+Lemma reload_changes_item_number : reload_restores_item_number = false -> changes_on_reload list_coll.
+Proof.
+  intro Hc.
+  first [ unfold reload_restores_item_number in Hc; discriminate Hc
+        | eexists; split; [vm_compute; reflexivity | intros ps H; vm_compute in H; discriminate H] ].
+Qed.
 
 Lemma reload_changes_fixed_model : changes_on_reload fixed_inside.
 Proof. eexists. split; [vm_compute; reflexivity|]. intros ps H. vm_compute in H. discriminate H. Qed.
 
-Lemma reload_fails :
-  reload log_gaussian_model = None /\ reload negated_model = None /\ reload drawer = None.
-Proof. repeat split; vm_compute; reflexivity. Qed.
+Lemma reload_fails_log_gaussian : log_gaussian_dict = false -> reload log_gaussian_model = None.
+Proof.
+  intro Hc. first [ unfold log_gaussian_dict in Hc; discriminate Hc | vm_compute; reflexivity ].
+Qed.
+
+Lemma reload_fails_drawer : drawer_json_readable = false -> reload drawer = None.
+Proof.
+  intro Hc. first [ unfold drawer_json_readable in Hc; discriminate Hc | vm_compute; reflexivity ].
+Qed.
+
+Lemma reload_fails_negated : reload negated_model = None.
+Proof. vm_compute. reflexivity. Qed.
 
 Lemma roundtrip_refuted :
   ~ (forall t, exists t', reload t = Some t' /\ forall ps, tokens ps (reify t') = tokens ps (reify t)).
 Proof.
-  intro H. destruct (H list_coll) as [t' [R E]].
-  destruct reload_changes_item_number as [t'' [R' N]]. rewrite R in R'. inversion R'. subst t''.
+  intro H. destruct (H fixed_inside) as [t' [R E]].
+  destruct reload_changes_fixed_model as [t'' [R' N]]. rewrite R in R'. inversion R'. subst t''.
   exact (N ps0 (E ps0)).
 Qed.
 
